@@ -25,6 +25,7 @@ namespace Srtla.SelShell
 open Srtla Srtla.Gen Srtla.Conn Srtla.Select Srtla.Rtt Srtla.Link Srtla.Sys Scalar
 
 variable {F : Type} [Scalar F]
+variable {fa : List (Nat × Nat)}
 
 /-! ## 1. The two relations -/
 
@@ -115,7 +116,7 @@ theorem gk_stallProbeDue (l : FLink F) : GKeep l l.stallProbeDue.1 := by
 theorem torn_markForRecovery (l : FLink F) : Torn l l.markForRecovery := gk
 
 theorem fwdLink_guard (l : FLink F) (pkt : Link.Bytes) (seq : Option Nat) (now : Nat) (fn : List Nat) :
-    KeepOrTorn l (Hk.fwdLink l pkt seq now fn).1 := by
+    KeepOrTorn l (Hk.fwdLink fa l pkt seq now fn).1 := by
   have hq := gk_queue l pkt seq now
   unfold Hk.fwdLink
   split
@@ -128,7 +129,7 @@ theorem fwdLink_guard (l : FLink F) (pkt : Link.Bytes) (seq : Option Nat) (now :
   · exact .inl hq
 
 theorem probeLink_guard (l : FLink F) (pkt : Link.Bytes) (seq : Option Nat) (now : Nat) (fn : List Nat) :
-    KeepOrTorn l (Hk.probeLink l pkt seq now fn).1 := by
+    KeepOrTorn l (Hk.probeLink fa l pkt seq now fn).1 := by
   have hp := gk_stallProbeDue l
   unfold Hk.probeLink
   split
